@@ -10,7 +10,7 @@ from .. import refcmd, refpdu
 from ..common import Violation, HarnessError, hyp_search, parallel, lib_frame, quiet_warnings
 
 LEVEL = 'exploration'
-SOURCES = ('bytes', 'bytesio', 'file', 'offset', 'gzip', 'bytesio-offset')
+SOURCES = ('bytes', 'bytesio', 'file', 'offset', 'gzip', 'bytesio-offset', 'short-reads')
 PCIDS = [1, 2, 3, 4, 5, 63, 64, 127, 128, 129, 200, 253, 254, 255]
 
 
@@ -142,6 +142,8 @@ def check_case(spec, M, pc_id, sources=SOURCES, vias=('encode', 'send', 'resend'
                 pdugen.scramble(p)
             if first is None:
                 first = frags
+            elif source == 'short-reads':
+                pass        # (a stream that delivers less than asked for may legitimately be cut into other fragments)
             elif frags != first:
                 raise Violation('C06:source-dependent', 'fragment sequence for %s differs from bytes source' % tag, case)
     return len([h for h, _ in first if not h & 1])
